@@ -1,4 +1,5 @@
 """C03 — every stdlib function honours its declared signature (table-agreement clauses)."""
+import re
 import stdlibrules as sr
 
 
@@ -10,7 +11,9 @@ def run(chk):
         "progressive type checking lets `f!(.x)` deliver a wrong-typed value to resolve, which must yield an error. R03f: the call builder's progressive type check compares parameter.kind() with the argument's own unmodified kind and records every partial match. "
         "R03c (documented return kinds): the Value variants a function's resolve can return — read from the MIR by classifying the producers of the returned "
         "value (P-RET: Value::X constructions, From/Into<Value> conversions by source type, results of local helpers; an operand handed back unchanged is "
-        "'unknown' and never reported) — are inside the kinds `Function::return_kind()` declares. R03h (wrong-typed run-time arguments): the value of a parameter whose declared kind is "
+        "'unknown' and never reported) — are inside the kinds `Function::return_kind()` declares. R03g (declared result type): each function's `type_def` is evaluated by abstract interpretation "
+        "of its MIR (P-ABS) with every argument at its declared parameter kind; the resulting kind set must contain every Value variant P-RET finds "
+        "resolve can produce (objects/arrays as one kind each). R03h (wrong-typed run-time arguments): the value of a parameter whose declared kind is "
         "restricted never reaches a kind-agnostic conversion (Value::to_string_lossy, coerce_to_bytes, Display) — in resolve or in a stdlib helper it is handed "
         "to — on a path without a dominating kind check (try_*/as_*/match on the variant). Undecided: element kinds of returned collections, the "
         "argument-dependent refinement in type_def, semantic correctness.")
@@ -20,6 +23,7 @@ def run(chk):
     sr.rule_progressive_type_check(chk, "R03f")
     rule_return_kinds(chk, "R03c", M)
     sr.rule_restricted_args_checked(chk, "R03h", M)
+    rule_type_def_kinds(chk, "R03g", M)
 
 
 VARIANT_BIT = {"Bytes": 1 << 1, "Integer": 1 << 2, "Float": 1 << 3, "Boolean": 1 << 4, "Object": 1 << 5, "Array": 1 << 6, "Timestamp": 1 << 7,
@@ -71,3 +75,58 @@ def rule_return_kinds(chk, rid, M):
     chk.extra["R03c_fully_classified_functions"] = n_known
     if n_known < 120:
         chk.fail_closed(rid, "only %d functions have a fully classified return value (expected >= 120): the producer classification no longer matches the code" % n_known)
+
+
+KIND_OF_VARIANT = {"Bytes": "bytes", "Integer": "integer", "Float": "float", "Boolean": "boolean", "Object": "object", "Array": "array",
+                   "Timestamp": "timestamp", "Regex": "regex", "Null": "null"}
+
+
+def rule_type_def_kinds(chk, rid, M):
+    import fmap
+    import retkind
+    import tinfo
+    facts = chk.facts
+    chk.rule(rid, "type_def (evaluated abstractly under the declared parameter kinds) contains every Value variant resolve can produce", floor=120)
+    R = retkind.RetKinds(facts)
+    bitname = {"BYTES": "bytes", "INTEGER": "integer", "FLOAT": "float", "BOOLEAN": "boolean", "OBJECT": "object", "ARRAY": "array",
+               "TIMESTAMP": "timestamp", "REGEX": "regex", "NULL": "null"}
+    evaluated = 0
+    for f in M.functions.values():
+        ident = f["identifier"]
+        params = {p["keyword"]: p for p in (fmap.parameters_of(facts, f) or []) if p.get("keyword")}
+        for e in f["exprs"]:
+            name = M.method_body(e, "type_def")
+            adt = facts.adts.get(e)
+            rn = M.resolve_body(e)
+            if not name or not adt or not rn:
+                continue
+            v = adt["variants"][0]
+            fields, exprs = {}, {}
+            for fld, ty in zip(v["fields"], v["ftys"]):
+                if re.match(r"^std::boxed::Box<\(?dyn compiler::expression::Expression", ty):
+                    fields[fld] = tinfo.boxed(tinfo.Expr(fld))
+                elif ty.startswith("std::option::Option<std::boxed::Box<"):
+                    fields[fld] = tinfo.Enum("std::option::Option", "Some", {"0": tinfo.boxed(tinfo.Expr(fld))})
+                else:
+                    fields[fld] = tinfo.UNK
+                p = params.get(fld)
+                kinds = {n for b_, n in bitname.items() if p and p.get("kind") and p["kind"] & fmap.KIND_BITS[b_]}
+                exprs[fld] = tinfo.TD(kinds or set(tinfo.KINDS))
+            it = tinfo.Interp(facts, exprs)
+            try:
+                res = it.call_body(name, [tinfo.Ref(tinfo.Enum(e, None, fields)), tinfo.Ref(tinfo.ST())])
+            except tinfo.Undecided:
+                continue
+            if not isinstance(res, tinfo.TD):
+                continue
+            evaluated += 1
+            got = R.of(rn)
+            outside = sorted(x for x in got - {"?"} if x in KIND_OF_VARIANT and KIND_OF_VARIANT[x] not in res.kind)
+            d = {"function": ident, "expression": e, "type_def_kind": sorted(res.kind), "produced_variants": sorted(got - {"?"}),
+                 "has_unclassified_producer": "?" in got}
+            chk.instance(rid, d, ok=not outside)
+            for x in outside:
+                chk.violation(rid, f["file"], e, "`%s` returns %s outside its type_def" % (ident, x),
+                              "`%s`: resolve can produce a %s value, but type_def (evaluated with every argument at its declared kind) yields %s: the result "
+                              "does not belong to the declared result type" % (ident, x.lower(), "|".join(sorted(res.kind)) or "never"), detail=d)
+    chk.extra["R03g_type_defs_evaluated"] = evaluated
